@@ -26,6 +26,8 @@ GATED = [
     ("try:\n    pass\nexcept* E:\n    $(ls)\n", 11), ("type = 1\nprint(type)\n", 0), ("type(x)\n", 0), ("def f(type): return type[0]\n", 0),
     ("match = [1]\nmatch[0]\n", 0), ("try:\n    pass\nexcept E:\n    pass\n", 0), ("x = a[T]\n", 0), ("def f(a): pass\n", 0), ("class C(B[T]): pass\n", 0),
     ("type X = = 1\n", 0), ("def f[T](: pass\n", 0), ("try:\n    pass\nexcept* :\n    pass\n", 0),
+    ("s = " + " + ".join(["a"] * 400) + "\n", 0), ("t = " + " ".join(["'x'"] * 400) + "\n", 0), ("u = a" + ".b" * 400 + "\n", 0),
+    ("v = f(" + ", ".join(["a"] * 400) + ")\n", 0), ("w = a" + "[0]" * 300 + "\n", 0), ("x = " + " and ".join(["a"] * 400) + "\n", 0),
 ]
 TIERS = {"quick": dict(py=120, xsh=40, bad=40), "thorough": dict(py=2500, xsh=400, bad=600)}
 
